@@ -587,7 +587,8 @@ ORACLES = [oracle_entered, oracle_jira, oracle_direct]
 UNMODELLED = {'QueueOutOfOrder', 'PullRequestSkewDetected', 'QueueValidationError', 'IncoherentQueues'}
 
 
-def play(h, events, model, base_dir=None):
+def play(h, events, model, base_dir=None, tail=None):
+    """`tail(run, model or None, refs, anc)`: called after the last event, before the run is closed (harness/convsys.py)"""
     run = EvalRun(h, base_dir)
     out = {'disagreement': None, 'failures': [], 'stats': {}, 'compared': 0, 'evals': [], 'samples': []}
     stats = out['stats']
@@ -739,6 +740,8 @@ def play(h, events, model, base_dir=None):
             out['evals'].append((status, d['stage']))
             if len(out['samples']) < 2 and status in ('ApprovalRequired', 'BuildFailed', 'Queued'):
                 out['samples'].append({'status': status, 'model': d})
+        if tail is not None:
+            out['tail'] = tail(run, model if model_ok else None, refs, anc)
     finally:
         run.close()
     return out
